@@ -6,7 +6,9 @@ import z3
 
 from pyvc.state import State, Obligation
 from pyvc.solve import discharge
-from pyvc.values import LATTICE
+from pyvc.values import LATTICE, Unsupported
+from pyvc.state import PathEnd, Infeasible
+from pyvc.interp import PyRaise
 
 
 def run_lemmas(lemmas, tier, seed):
@@ -19,7 +21,7 @@ def run_lemmas(lemmas, tier, seed):
     axioms = LATTICE.axioms()
     for l in lemmas:
         t0 = time.time()
-        r = dict(key=f'lemma::{l.name}', verdicts=[], unsupported=[], missing=False, paths=1, outcomes={}, error=None,
+        r = dict(key=getattr(l, 'key', None) or f'lemma::{l.name}', verdicts=[], unsupported=[], missing=False, paths=1, outcomes={}, error=None,
                  assumptions=[], lines=None, props=list(l.props))
         try:
             st = State([], axioms)
@@ -27,11 +29,20 @@ def run_lemmas(lemmas, tier, seed):
             it = Interp(repo, reg, st, models)
             models.attach(it)
             for n, f in l.obligations(it):
+                if isinstance(f, bool):
+                    ob = Obligation(f'lemma:{l.name}#{n}', st.pc, z3.BoolVal(f), 0, concrete_fail=None if f else 'structural mismatch')
+                    v = discharge(ob, axioms, timeout_s=20, seed=seed)
+                    r['verdicts'].append(v.as_dict())
+                    continue
                 ob = Obligation(f'lemma:{l.name}#{n}', st.pc, f, 0)
                 v = discharge(ob, axioms, timeout_s=20 if tier == 'quick' else 120, seed=seed, both=(tier == 'thorough'),
                               cvc5_first=getattr(l, 'cvc5_first', False))
                 r['verdicts'].append(v.as_dict())
             r['assumptions'] = sorted(st.assumptions_used)
+        except Unsupported as e:
+            r['unsupported'].append(str(e))
+        except (PathEnd, Infeasible, PyRaise) as e:
+            r['unsupported'].append(f'the constructor did not return normally ({type(e).__name__}: {e})')
         except Exception:
             r['error'] = traceback.format_exc()
         r['wall_s'] = time.time() - t0
